@@ -161,6 +161,17 @@ class Rig:
                 _DONE[handler.client_address[1]] = _TH.pop(threading.get_ident(), {"calls": [], "handle": {}, "exc": []})
             return orig(handler)
         cls.finish = finish                 # wrapper on the real class in this process; /repo is not edited
+        self._orig_setup = cls.setup
+        orig_setup = cls.setup
+
+        def setup(handler):
+            # every connection thread is known from its first moment: what it logs (e.g. a BrokenPipe while answering
+            # a client that has already gone away, possibly much later on a loaded machine) belongs to ITS connection
+            # and can never be taken for a stray record of the case that happens to run at that time
+            with _lock:
+                _TH[threading.get_ident()] = {"calls": [], "handle": {}, "exc": []}
+            return orig_setup(handler)
+        cls.setup = setup
         self.exclog = _ExcLog()
         self.logger = logging.getLogger("vinegar.http.server")
         self._old = (self.logger.level, self.logger.propagate)
@@ -184,6 +195,7 @@ class Rig:
             self.server.stop()
         finally:
             self._cls.finish = self._orig_finish
+            self._cls.setup = self._orig_setup
             self.logger.removeHandler(self.exclog)
             self.logger.setLevel(self._old[0])
             self.logger.propagate = self._old[1]
